@@ -120,7 +120,7 @@ def run(c, tier):
     rt = os.path.join(cargo_build("rt"), "rt")
     j1, n1 = lib.gen_step(c, "Gen_CGlueObj", "Gen_CGlueObj_d2.cfg", "gen_obj_d2")
     b1, s1, k1 = obj_replay(c, rt, j1, 2, 4, "(all behaviours of depth 2)")
-    num = 6 if quick else 120
+    num = 150 if quick else 3000   # behaviours = 8 x num (4 seeds x num/2 x 4 workers), one per simulated trace
     j2, n2 = lib.gen_step(c, "Gen_CGlueObj", "Gen_CGlueObj.cfg", "gen_obj_sim", simulate="num=%d" % num, workers=4, seed_=lib.seed())
     b2, s2, k2 = obj_replay(c, rt, j2, 3, 8, "(simulated behaviour of depth 12)")
     # impl -> spec on a slice of the simulated behaviours
